@@ -96,12 +96,16 @@ Record rt := {
   t_buf : list rec;                (* the WAL writer's userland buffer *)
   t_mem : list rec;                (* active memtable, arrival order *)
   t_imm : list (N * list rec);     (* sealed memtables, oldest first *)
+  t_fl : N;                        (* progress of the flush of the oldest sealed memtable: 0 none, 1 file created, 2 filled, 3 in the manifest *)
   t_maxfid : N;                    (* levelManager.maxFID *)
   t_vact : list (N * N);           (* bucket -> active value-log file *)
   t_logged : list (N * N);         (* bucket -> file id of lastLoggedHeads *)
   t_ptrs : list ((N * N) * ptr);   (* pointers of the request being written: (key, vid) -> ptr *)
   t_seq : N;
-  t_acked : N
+  t_acked : N;
+  t_log : list rec;                (* ghost: every record handed to the WAL writer so far *)
+  t_done : list (N * list rec);    (* ghost: the flushed memtables whose table is in the manifest, oldest first *)
+  t_ackpos : N                     (* ghost: length of [t_log] at the last acknowledgement *)
 }.
 
 Definition mstate := (disk * rt)%type.
@@ -111,9 +115,21 @@ Definition set_man (d : disk) m := {| d_wal := d_wal d; d_man := m; d_sst := d_s
 Definition set_sst (d : disk) s := {| d_wal := d_wal d; d_man := d_man d; d_sst := s; d_vlog := d_vlog d |}.
 Definition set_vlog (d : disk) v := {| d_wal := d_wal d; d_man := d_man d; d_sst := d_sst d; d_vlog := v |}.
 
-Definition upd (t : rt) act buf mem imm maxfid vact logged ptrs seq acked : rt :=
-  {| t_act := act; t_buf := buf; t_mem := mem; t_imm := imm; t_maxfid := maxfid; t_vact := vact;
-     t_logged := logged; t_ptrs := ptrs; t_seq := seq; t_acked := acked |}.
+Definition with_buf (t : rt) b := {| t_act := t_act t; t_buf := b; t_mem := t_mem t; t_imm := t_imm t; t_fl := t_fl t;
+  t_maxfid := t_maxfid t; t_vact := t_vact t; t_logged := t_logged t; t_ptrs := t_ptrs t; t_seq := t_seq t;
+  t_acked := t_acked t; t_log := t_log t; t_done := t_done t; t_ackpos := t_ackpos t |}.
+Definition with_imm (t : rt) i fl := {| t_act := t_act t; t_buf := t_buf t; t_mem := t_mem t; t_imm := i; t_fl := fl;
+  t_maxfid := t_maxfid t; t_vact := t_vact t; t_logged := t_logged t; t_ptrs := t_ptrs t; t_seq := t_seq t;
+  t_acked := t_acked t; t_log := t_log t; t_done := t_done t; t_ackpos := t_ackpos t |}.
+Definition with_vact (t : rt) v := {| t_act := t_act t; t_buf := t_buf t; t_mem := t_mem t; t_imm := t_imm t; t_fl := t_fl t;
+  t_maxfid := t_maxfid t; t_vact := v; t_logged := t_logged t; t_ptrs := t_ptrs t; t_seq := t_seq t;
+  t_acked := t_acked t; t_log := t_log t; t_done := t_done t; t_ackpos := t_ackpos t |}.
+Definition with_logged (t : rt) l := {| t_act := t_act t; t_buf := t_buf t; t_mem := t_mem t; t_imm := t_imm t; t_fl := t_fl t;
+  t_maxfid := t_maxfid t; t_vact := t_vact t; t_logged := l; t_ptrs := t_ptrs t; t_seq := t_seq t;
+  t_acked := t_acked t; t_log := t_log t; t_done := t_done t; t_ackpos := t_ackpos t |}.
+Definition with_ptrs (t : rt) p := {| t_act := t_act t; t_buf := t_buf t; t_mem := t_mem t; t_imm := t_imm t; t_fl := t_fl t;
+  t_maxfid := t_maxfid t; t_vact := t_vact t; t_logged := t_logged t; t_ptrs := p; t_seq := t_seq t;
+  t_acked := t_acked t; t_log := t_log t; t_done := t_done t; t_ackpos := t_ackpos t |}.
 
 (** * Workload and annotations *)
 
@@ -137,9 +153,10 @@ Inductive mop :=
 | MHead (b : N)
 | MFlushBuf | MNewSeg
 | MBuf (e : entry) | MSpill
-| MSync | MAck
+| MSync | MAck | MSyncAck
 | MSstCreate | MSstFill | MFlushMan | MFlushWalRm
-| MMan (es : list medit)
+| MMove (fids : list N) (lvl : N)
+| MVlogDel (b f : N)
 | MVlogRm (b f : N).
 
 Definition mem_b (x : N) (l : list N) : bool := existsb (N.eqb x) l.
@@ -164,15 +181,21 @@ Definition request_mops (sync : bool) (es : list entry) (border hord : list N) :
   vlog_phase es border ++ map MHead (head_order border hord) ++ apply_phase es ++
   (if sync then [MSync] else []).
 
+(** With SyncWrites the acknowledgement follows wal.Sync with no file effect in between:
+    the two are one micro-operation. *)
+Definition client_request_mops (sync : bool) (es : list entry) (border hord : list N) : list mop :=
+  vlog_phase es border ++ map MHead (head_order border hord) ++ apply_phase es ++
+  (if sync then [MSyncAck] else [MAck]).
+
 Definition compile_step (sync : bool) (s : step) : list mop :=
   match s with
-  | SB es border hord => request_mops sync es border hord ++ [MAck]
+  | SB es border hord => client_request_mops sync es border hord
   | SRot => [MFlushBuf; MNewSeg]
   | SFl => [MSstCreate; MSstFill; MFlushMan; MFlushWalRm]
-  | SMv fids lvl => [MMan (flat_map (fun f => [DF f 0; AF f lvl]) fids)]
+  | SMv fids lvl => [MMove fids lvl]
   | SGc b f es border hord =>
       request_mops sync es border hord ++
-      (match es with [] => [MMan [VD b f]; MVlogRm b f] | _ => [] end)
+      (match es with [] => [MVlogDel b f; MVlogRm b f] | _ => [] end)
   end.
 
 Definition compile (sync : bool) (w : list step) : list mop := flat_map (compile_step sync) w.
@@ -191,75 +214,90 @@ Fixpoint take_ptr (k : N * N) (l : list ((N * N) * ptr)) : option ptr * list ((N
 Definition flush_k (k : nat) (d : disk) (t : rt) : mstate * option eff :=
   match k with
   | O => ((d, t), None)
-  | _ => ((set_wal d (fappend N.eqb (t_act t) (firstn k (t_buf t)) (d_wal d)),
-           upd t (t_act t) (skipn k (t_buf t)) (t_mem t) (t_imm t) (t_maxfid t) (t_vact t) (t_logged t) (t_ptrs t) (t_seq t) (t_acked t)),
+  | _ => ((set_wal d (fappend N.eqb (t_act t) (firstn k (t_buf t)) (d_wal d)), with_buf t (skipn k (t_buf t))),
           Some (WF (t_act t) (N.of_nat k)))
   end.
+
+(** moveToIngest: a table that is not in the manifest is not touched *)
+Definition move_edits (v : mver) (fids : list N) (lvl : N) : list medit :=
+  flat_map (fun f => if mem_b f (m_ssts v) then [DF f 0; AF f lvl] else []) fids.
 
 Definition exec (st : mstate) (m : mop) : mstate * option eff :=
   let '(d, t) := st in
   match m with
   | MVRot b =>
       let f := vact_of t b + 1 in
-      ((set_vlog d (fput pair_eqb (b, f) [] (d_vlog d)),
-        upd t (t_act t) (t_buf t) (t_mem t) (t_imm t) (t_maxfid t) (fput N.eqb b f (t_vact t)) (t_logged t) (t_ptrs t) (t_seq t) (t_acked t)),
-       Some (VC b f))
+      ((set_vlog d (fput pair_eqb (b, f) [] (d_vlog d)), with_vact t (fput N.eqb b f (t_vact t))), Some (VC b f))
   | MVApp b e =>
       let f := vact_of t b in
       let slot := match fget pair_eqb (b, f) (d_vlog d) with Some rs => N.of_nat (length rs) | None => 0 end in
       ((set_vlog d (fappend pair_eqb (b, f) [{| v_key := e_key e; v_ver := e_ver e; v_vid := e_vid e |}] (d_vlog d)),
-        upd t (t_act t) (t_buf t) (t_mem t) (t_imm t) (t_maxfid t) (t_vact t) (t_logged t)
-            (t_ptrs t ++ [((e_key e, e_vid e), {| p_b := b; p_f := f; p_slot := slot |})]) (t_seq t) (t_acked t)),
+        with_ptrs t (t_ptrs t ++ [((e_key e, e_vid e), {| p_b := b; p_f := f; p_slot := slot |})])),
        Some (VA b f (e_key e) (e_vid e)))
   | MHead b =>
       let f := vact_of t b in
-      match fget N.eqb b (t_logged t) with
-      | Some g => if g =? f then ((d, t), None)
-                  else ((set_man d (d_man d ++ [VH b f]),
-                         upd t (t_act t) (t_buf t) (t_mem t) (t_imm t) (t_maxfid t) (t_vact t) (fput N.eqb b f (t_logged t)) (t_ptrs t) (t_seq t) (t_acked t)),
-                        Some (MF [VH b f]))
-      | None => ((set_man d (d_man d ++ [VH b f]),
-                  upd t (t_act t) (t_buf t) (t_mem t) (t_imm t) (t_maxfid t) (t_vact t) (fput N.eqb b f (t_logged t)) (t_ptrs t) (t_seq t) (t_acked t)),
-                 Some (MF [VH b f]))
-      end
+      if match fget N.eqb b (t_logged t) with Some g => g =? f | None => false end
+      then ((d, t), None)
+      else ((set_man d (d_man d ++ [VH b f]), with_logged t (fput N.eqb b f (t_logged t))), Some (MF [VH b f]))
   | MFlushBuf | MSync => flush_k (length (t_buf t)) d t
   | MSpill => flush_k (pred (length (t_buf t))) d t
   | MNewSeg =>
-      let s := t_maxfid t + 1 in
-      ((set_wal d (fput N.eqb s [] (d_wal d)),
-        upd t s (t_buf t) [] (t_imm t ++ [(t_act t, t_mem t)]) s (t_vact t) (t_logged t) (t_ptrs t) (t_seq t) (t_acked t)),
-       Some (WC s))
+      match t_buf t with
+      | [] =>
+          let s := t_maxfid t + 1 in
+          ((set_wal d (fput N.eqb s [] (d_wal d)),
+            {| t_act := s; t_buf := []; t_mem := []; t_imm := t_imm t ++ [(t_act t, t_mem t)]; t_fl := t_fl t;
+               t_maxfid := s; t_vact := t_vact t; t_logged := t_logged t; t_ptrs := t_ptrs t; t_seq := t_seq t;
+               t_acked := t_acked t; t_log := t_log t; t_done := t_done t; t_ackpos := t_ackpos t |}),
+           Some (WC s))
+      | _ => ((d, t), None)     (* switchSegmentLocked flushes first: never reached with a non-empty buffer *)
+      end
   | MBuf e =>
       let '(p, ptrs') := if e_loc e =? 0 then (None, t_ptrs t) else take_ptr (e_key e, e_vid e) (t_ptrs t) in
       let r := {| r_key := e_key e; r_ver := e_ver e; r_seq := t_seq t; r_del := e_del e; r_vid := e_vid e; r_ptr := p |} in
-      ((d, upd t (t_act t) (t_buf t ++ [r]) (t_mem t ++ [r]) (t_imm t) (t_maxfid t) (t_vact t) (t_logged t) ptrs' (t_seq t + 1) (t_acked t)),
+      ((d, {| t_act := t_act t; t_buf := t_buf t ++ [r]; t_mem := t_mem t ++ [r]; t_imm := t_imm t; t_fl := t_fl t;
+              t_maxfid := t_maxfid t; t_vact := t_vact t; t_logged := t_logged t; t_ptrs := ptrs'; t_seq := t_seq t + 1;
+              t_acked := t_acked t; t_log := t_log t ++ [r]; t_done := t_done t; t_ackpos := t_ackpos t |}),
        None)
+  | MSyncAck =>
+      let '((d', t'), oe) := flush_k (length (t_buf t)) d t in
+      ((d', {| t_act := t_act t'; t_buf := t_buf t'; t_mem := t_mem t'; t_imm := t_imm t'; t_fl := t_fl t';
+               t_maxfid := t_maxfid t'; t_vact := t_vact t'; t_logged := t_logged t'; t_ptrs := []; t_seq := t_seq t';
+               t_acked := t_acked t' + 1; t_log := t_log t'; t_done := t_done t'; t_ackpos := N.of_nat (length (t_log t')) |}), oe)
   | MAck =>
-      ((d, upd t (t_act t) (t_buf t) (t_mem t) (t_imm t) (t_maxfid t) (t_vact t) (t_logged t) [] (t_seq t) (t_acked t + 1)), None)
+      ((d, {| t_act := t_act t; t_buf := t_buf t; t_mem := t_mem t; t_imm := t_imm t; t_fl := t_fl t;
+              t_maxfid := t_maxfid t; t_vact := t_vact t; t_logged := t_logged t; t_ptrs := []; t_seq := t_seq t;
+              t_acked := t_acked t + 1; t_log := t_log t; t_done := t_done t; t_ackpos := N.of_nat (length (t_log t)) |}), None)
   | MSstCreate =>
-      match t_imm t with
-      | (s, _ :: _) :: _ => ((set_sst d (fput N.eqb s None (d_sst d)), t), Some (SC s))
-      | _ => ((d, t), None)
+      match t_imm t, t_fl t with
+      | (s, _ :: _) :: _, 0 => ((set_sst d (fput N.eqb s None (d_sst d)), with_imm t (t_imm t) 1), Some (SC s))
+      | _, _ => ((d, t), None)
       end
   | MSstFill =>
-      match t_imm t with
-      | (s, (_ :: _) as rs) :: _ => ((set_sst d (fput N.eqb s (Some rs) (d_sst d)), t), Some (SF s))
-      | _ => ((d, t), None)
+      match t_imm t, t_fl t with
+      | (s, (_ :: _) as rs) :: _, 1 => ((set_sst d (fput N.eqb s (Some rs) (d_sst d)), with_imm t (t_imm t) 2), Some (SF s))
+      | _, _ => ((d, t), None)
       end
   | MFlushMan =>
-      match t_imm t with
-      | (s, _ :: _) :: _ => ((set_man d (d_man d ++ [AF s 0; LP s]), t), Some (MF [AF s 0; LP s]))
-      | _ => ((d, t), None)
+      match t_imm t, t_fl t with
+      | (s, (_ :: _) as rs) :: _, 2 =>
+          ((set_man d (d_man d ++ [AF s 0; LP s]),
+            {| t_act := t_act t; t_buf := t_buf t; t_mem := t_mem t; t_imm := t_imm t; t_fl := 3;
+               t_maxfid := t_maxfid t; t_vact := t_vact t; t_logged := t_logged t; t_ptrs := t_ptrs t; t_seq := t_seq t;
+               t_acked := t_acked t; t_log := t_log t; t_done := t_done t ++ [(s, rs)]; t_ackpos := t_ackpos t |}),
+           Some (MF [AF s 0; LP s]))
+      | _, _ => ((d, t), None)
       end
   | MFlushWalRm =>
-      match t_imm t with
-      | (s, _) :: imm' =>
-          ((set_wal d (fdel N.eqb s (d_wal d)),
-            upd t (t_act t) (t_buf t) (t_mem t) imm' (t_maxfid t) (t_vact t) (t_logged t) (t_ptrs t) (t_seq t) (t_acked t)),
-           Some (WR s))
-      | [] => ((d, t), None)
+      match t_imm t, t_fl t with
+      | (s, []) :: imm', 0 | (s, _ :: _) :: imm', 3 =>
+          ((set_wal d (fdel N.eqb s (d_wal d)), with_imm t imm' 0), Some (WR s))
+      | _, _ => ((d, t), None)
       end
-  | MMan es => ((set_man d (d_man d ++ es), t), Some (MF es))
+  | MMove fids lvl =>
+      let es := move_edits (mapply_all (d_man d)) fids lvl in
+      ((set_man d (d_man d ++ es), t), Some (MF es))
+  | MVlogDel b f => ((set_man d (d_man d ++ [VD b f]), t), Some (MF [VD b f]))
   | MVlogRm b f => ((set_vlog d (fdel pair_eqb (b, f) (d_vlog d)), t), Some (VR b f))
   end.
 
@@ -270,8 +308,8 @@ Definition range_N (n : nat) : list N := map N.of_nat (seq 0 n).
 Definition init (seg : N) (buckets : nat) : mstate :=
   ({| d_wal := [(seg, [])]; d_man := []; d_sst := [];
       d_vlog := map (fun b => ((b, 0), [])) (range_N buckets) |},
-   {| t_act := seg; t_buf := []; t_mem := []; t_imm := []; t_maxfid := seg;
-      t_vact := map (fun b => (b, 0)) (range_N buckets); t_logged := []; t_ptrs := []; t_seq := 0; t_acked := 0 |}).
+   {| t_act := seg; t_buf := []; t_mem := []; t_imm := []; t_fl := 0; t_maxfid := seg;
+      t_vact := map (fun b => (b, 0)) (range_N buckets); t_logged := []; t_ptrs := []; t_seq := 0; t_acked := 0; t_log := []; t_done := []; t_ackpos := 0 |}).
 
 Definition exec_all (ms : list mop) (st : mstate) : mstate := fold_left (fun s m => fst (exec s m)) ms st.
 
@@ -300,25 +338,22 @@ Definition crash (st : mstate) : disk := fst st.
 
 (** * Recovery (db.go:Open) *)
 
-Fixpoint insert_desc {A : Type} (x : N * A) (l : list (N * A)) : list (N * A) :=
-  match l with
-  | [] => [x]
-  | y :: l' => if fst y <? fst x then x :: l else y :: insert_desc x l'
-  end.
-Definition sort_desc {A : Type} (l : list (N * A)) : list (N * A) := fold_right insert_desc [] l.
+(** File ids (WAL segments, tables) are allocated in increasing order, so a directory
+    listing sorted by id is the creation order the model keeps its files in; "newest first"
+    is the reversed creation order. *)
 
 (** levelManager.build: tables the manifest names and whose file is there (a missing one is
-    dropped with a DeleteFile edit); lookup order newest file id first *)
-Definition sst_sources (d : disk) (v : mver) : list (N * list rec) :=
-  sort_desc (flat_map (fun fid => match fget N.eqb fid (d_sst d) with
-                                  | Some (Some rs) => [(fid, rs)]
-                                  | _ => []
-                                  end) (m_ssts v)).
+    dropped with a DeleteFile edit); oldest first *)
+Definition sst_chunks (d : disk) (v : mver) : list (list rec) :=
+  flat_map (fun x => match snd x with
+                     | Some rs => if mem_b (fst x) (m_ssts v) then [rs] else []
+                     | None => []
+                     end) (d_sst d).
 
-(** lsm.recovery: segments at or below the log pointer are removed, the others replayed;
-    empty ones are skipped; the newest is the active memtable *)
-Definition wal_sources (d : disk) (v : mver) : list (N * list rec) :=
-  sort_desc (filter (fun sr => (m_logseg v <? fst sr) && negb (match snd sr with [] => true | _ => false end)) (d_wal d)).
+(** lsm.recovery: segments at or below the log pointer are removed, the others replayed
+    (oldest first); empty ones are skipped *)
+Definition wal_chunks (d : disk) (v : mver) : list (list rec) :=
+  flat_map (fun sr => if m_logseg v <? fst sr then match snd sr with [] => [] | rs => [rs] end else []) (d_wal d).
 
 Definition max_valid (b : N) (vl : list ((N * N) * bool)) : option N :=
   fold_left (fun acc x => let '((b', f), ok) := x in
@@ -352,8 +387,8 @@ Definition max_seq (srcs : list (list rec)) : N :=
 
 Definition recover (d : disk) : rstore :=
   let v := mapply_all (d_man d) in
-  let mems := map snd (wal_sources d v) in
-  let srcs := (match mems with [] => [[]] | _ => mems end) ++ map snd (sst_sources d v) in
+  let mems := rev (wal_chunks d v) in
+  let srcs := (match mems with [] => [[]] | _ => mems end) ++ rev (sst_chunks d v) in
   {| s_src := srcs; s_vlog := drop_empty_sealed (reconcile (m_vlogs v) (d_vlog d)); s_seq := max_seq srcs |}.
 
 (** * Reads on a recovered store (LSM.Get: the first source holding a version <= the
